@@ -234,26 +234,53 @@ def r_literal(ctx: Ctx, rt: RT):
 
 
 def r_eq(ctx: Ctx, rt: RT):
-    ctx.rule("ID-eq: __eq__ compares iso_id; iso_id is a property computed by isotherm_to_hash(self) with no stored value")
-    bi = rt.model.cls(CLASSES["BaseIsotherm"])
-    eq = bi.methods.get("__eq__")
-    iid = bi.methods.get("iso_id")
-    if eq is None or iid is None:
-        raise AnalysisError("anchor missing: BaseIsotherm.__eq__ / iso_id")
-    rets = [ast.unparse(n.value) for n in ast.walk(eq.node) if isinstance(n, ast.Return)]
-    ctx.ob(rets == ["self.iso_id == other_isotherm.iso_id"] or (len(rets) == 1 and rets[0].replace(" ", "") in
-                                                                ("self.iso_id==other.iso_id", "other_isotherm.iso_id==self.iso_id")),
-           Finding("C05.ID-eq", eq.where, "eq|not-id-equality", f"__eq__ returns {rets}"), nontrivial_key=("eq",))
-    body = [n for n in iid.node.body if not (isinstance(n, ast.Expr) and isinstance(n.value, ast.Constant))]
-    ok = iid.is_property and len(body) == 1 and isinstance(body[0], ast.Return) and ast.unparse(body[0].value) == "isotherm_to_hash(self)"
-    ctx.ob(ok, Finding("C05.ID-eq", iid.where, "iso_id|not-recomputed",
-                       "iso_id must be `return isotherm_to_hash(self)`: a stored or memoised identifier does not follow content changes"),
-           nontrivial_key=("iso_id",))
-    for q in CLASSES.values():
+    """decided by interpretation (not by the text of the two methods): for every isotherm class `a == b` and `a.iso_id` are run with
+    isotherm_to_hash replaced by a table lookup that the scenario changes between the comparisons - equality must follow the *current*
+    digests of both operands each time (a stored or memoised identifier would keep the first answer)"""
+    ctx.rule("ID-eq: a == b <=> isotherm_to_hash(a) == isotherm_to_hash(b), recomputed at every comparison (digest table changed between "
+             "comparisons); iso_id is that digest")
+    from ..domain import make_interp
+    from ..absint import Obj as _Obj
+    hq = "pygaps.utilities.hashgen.isotherm_to_hash"
+    n = 0
+    for cname, q in CLASSES.items():
         ci = rt.model.cls(q)
-        for nm in ("__eq__", "iso_id", "__hash__"):
-            if ci.name != "BaseIsotherm" and nm in ci.methods:
-                ctx.ob(False, Finding("C05.ID-eq", ci.methods[nm].where, f"{ci.name}|overrides:{nm}", f"{ci.name} overrides {nm}"))
+        eq = ci.find_method("__eq__")
+        if eq is None or ci.find_method("iso_id") is None:
+            raise AnalysisError(f"anchor missing: {cname}.__eq__ / iso_id")
+        I = make_interp(rt.model)
+        table, calls = {}, []
+
+        def hasher(I, fi, env, node):
+            o = env.get("isotherm")
+            calls.append(o)
+            if id(o) not in table:
+                raise AnalysisError("isotherm_to_hash called on an object that is not one of the two operands")
+            return table[id(o)]
+        I.overrides[hq] = hasher
+        a, b = _Obj(cls=ci, label="a", attrs={}), _Obj(cls=ci, label="b", attrs={})
+        plan = [("x", "x", True), ("x", "y", False), ("y", "y", True), ("z", "y", False), ("z", "z", True)]
+
+        def scenario(I):
+            out = []
+            for ha, hb, _ in plan:
+                table[id(a)], table[id(b)] = ha, hb
+                out.append((I.call_func(eq, [b], {}, None, self_obj=a), I.getattr_(a, "iso_id", None)))
+            return out
+        outs = I.explore(scenario)
+        for oc in outs:
+            n += 1
+            if oc.kind != "ok":
+                ctx.ob(False, Finding("C05.ID-eq", eq.where, f"{cname}|eq|raises", f"comparing two {cname} objects: {oc!r}"))
+                continue
+            got = [(r is True or (r is not False and r == True), i) for r, i in oc.value]      # noqa: E712
+            bad = [k for k, ((r, i), (ha, hb, w)) in enumerate(zip(got, plan)) if r != w or i != ha]
+            ctx.ob(not bad, Finding("C05.ID-eq", eq.where, f"{cname}|eq|stale-or-wrong:{bad}",
+                                    f"{cname}: with the digests of (a, b) set to {[(x, y) for x, y, _ in plan]} in turn, `a == b` / `a.iso_id` gave "
+                                    f"{[(r, i) for r, i in oc.value]}; required {[(w, x) for x, _, w in plan]} - equality is equality of the "
+                                    "current content digests, recomputed at every comparison"),
+                   nontrivial_key=("eq", cname))
+    ctx.floor("ID-eq comparison scenarios interpreted", n, 3)
 
 
 def run(ctx: Ctx):
